@@ -1,10 +1,112 @@
 import VOPyVerif.Drv.Proto
-/-! Driver front end for property C10 (line protocol → executable model). -/
+import VOPyVerif.Model.Covered
+/-! Driver front end for property C10 ("is covered").
+
+Verdicts are `1` (covered, certified), `0` (not covered, certified), `inconclusive` (no certificate
+accepted by a checker).  `ValueError` mirrors the slack-size guard of the code.
+
+* `rect <W> <l1> <u1> <l2> <u2> <slack> <tau>` → `v₊,v₀,v₋` : `Covered.rectIsCoveredTol` with the
+  per-facet margin `+tau`, `0`, `−tau` (`v₀` is the model of `RectangularConfidenceRegion.is_covered`),
+  or `ValueError`.
+* `rectcert <W> <l1> <u1> <l2> <u2> <slack> <tau>` → the raw certificate of the search on the reduced
+  system: `witness <d>` / `farkas <y>` / `ValueError` (re-checked independently by the harness).
+* `ball <W> <c1> <a1> <c2> <a2> <slack> <tau>` → `v₊,v₀,v₋` : `Covered.ballIsCoveredTol` (Σ = I), or
+  `ValueError`.
+* `ballproj <W> <c1> <c2> <slack>` → `<x>|<lam>` nearest point of `{d | W d ≥ t}` to `c2 − c1` with
+  its KKT multipliers (checked), `none`, or `ValueError`.
+* `ell <W> <c1> <L1> <a1> <c2> <L2> <a2> <slack> <tau> <u1> <u2> <lam>` → verdict of
+  `Covered.ellVerdict` with per-facet slack `slack + tau` and the proposed certificates
+  (`_` for a missing one), or `ValueError`.
+* `feasible <n> <A> <b>` → `1`/`0`/`inconclusive` : `LinCert.feasible` for `A x ≥ b`.
+* `chkwit <n> <A> <b> <x>`, `chkfarkas <n> <A> <b> <y>`, `chkkkt <n> <A> <b> <c> <x> <lam>` →
+  `ok` / `fail` : the three checkers of `Model/LinCert.lean`.
+-/
 namespace VOPy.Drv.C10
-open VOPy VOPy.Proto
+open VOPy VOPy.Proto VOPy.LinCert VOPy.Covered
+
+def mkSys (A : Mat) (b : Vec) : Option Sys :=
+  if A.length = b.length then some (List.zipWith (fun a bi => ⟨a, bi⟩) A b) else none
+
+def three (f : Rat → Option Verdict) (tau : Rat) : String :=
+  match f tau, f 0, f (-tau) with
+  | some a, some b, some c => a.toString ++ "," ++ b.toString ++ "," ++ c.toString
+  | _, _, _ => "ValueError"
+
+def okFail (b : Bool) : String := if b then "ok" else "fail"
 
 def handle (args : List String) : String :=
   match args with
+  | ["rect", w, l1, u1, l2, u2, s, tau] =>
+    match parseMat w, parseVec l1, parseVec u1, parseVec l2, parseVec u2, parseVec s, parseRat tau with
+    | some W, some l1, some u1, some l2, some u2, some s, some tau =>
+      three (rectIsCoveredTol W l1 u1 l2 u2 s) tau
+    | _, _, _, _, _, _, _ => bad
+  | ["rectcert", w, l1, u1, l2, u2, s, tau] =>
+    match parseMat w, parseVec l1, parseVec u1, parseVec l2, parseVec u2, parseVec s, parseRat tau with
+    | some W, some l1, some u1, some l2, some u2, some s, some tau =>
+      match expandSlack (ncols W) s with
+      | none => "ValueError"
+      | some sv =>
+        match solve l1.length (rectSysD W l1 u1 l2 u2 sv (List.replicate W.length tau)) with
+        | .witness d => "witness " ++ fmtVec d
+        | .farkas y => "farkas " ++ fmtVec y
+    | _, _, _, _, _, _, _ => bad
+  | ["ball", w, c1, a1, c2, a2, s, tau] =>
+    match parseMat w, parseVec c1, parseRat a1, parseVec c2, parseRat a2, parseVec s, parseRat tau with
+    | some W, some c1, some a1, some c2, some a2, some s, some tau =>
+      three (ballIsCoveredTol W c1 a1 c2 a2 s) tau
+    | _, _, _, _, _, _, _ => bad
+  | ["ballproj", w, c1, c2, s] =>
+    match parseMat w, parseVec c1, parseVec c2, parseVec s with
+    | some W, some c1, some c2, some s =>
+      match expandSlack W.length s with
+      | none => "ValueError"
+      | some t =>
+        match nearest c1.length (coneSys W t) (vsub c2 c1) with
+        | some (x, lam) => fmtVec x ++ "|" ++ fmtVec lam
+        | none => "none"
+    | _, _, _, _ => bad
+  | ["ell", w, c1, l1, a1, c2, l2, a2, s, tau, u1, u2, lam] =>
+    match parseMat w, parseVec c1, parseMat l1, parseRat a1, parseVec c2, parseMat l2, parseRat a2 with
+    | some W, some c1, some L1, some a1, some c2, some L2, some a2 =>
+      match parseVec s, parseRat tau, parseVec u1, parseVec u2, parseVec lam with
+      | some s, some tau, some u1, some u2, some lam =>
+        match expandSlack W.length s with
+        | none => "ValueError"
+        | some t => (ellVerdict W c1 L1 a1 c2 L2 a2 (t.map (· + tau)) u1 u2 lam).toString
+      | _, _, _, _, _ => bad
+    | _, _, _, _, _, _, _ => bad
+  | ["feasible", n, a, b] =>
+    match n.toNat?, parseMat a, parseVec b with
+    | some n, some A, some b =>
+      match mkSys A b with
+      | some S => match feasible n S with
+        | some true => "1"
+        | some false => "0"
+        | none => "inconclusive"
+      | none => bad
+    | _, _, _ => bad
+  | ["chkwit", n, a, b, x] =>
+    match n.toNat?, parseMat a, parseVec b, parseVec x with
+    | some n, some A, some b, some x =>
+      match mkSys A b with
+      | some S => okFail (checkWitness n S x)
+      | none => bad
+    | _, _, _, _ => bad
+  | ["chkfarkas", n, a, b, y] =>
+    match n.toNat?, parseMat a, parseVec b, parseVec y with
+    | some n, some A, some b, some y =>
+      match mkSys A b with
+      | some S => okFail (checkFarkas n S y)
+      | none => bad
+    | _, _, _, _ => bad
+  | ["chkkkt", n, a, b, c, x, lam] =>
+    match n.toNat?, parseMat a, parseVec b, parseVec c, parseVec x, parseVec lam with
+    | some n, some A, some b, some c, some x, some lam =>
+      match mkSys A b with
+      | some S => okFail (checkKKT n S c x lam)
+      | none => bad
+    | _, _, _, _, _, _ => bad
   | _ => bad
 
 end VOPy.Drv.C10
